@@ -330,13 +330,22 @@ fn mode_of(s: &str) -> Option<InstrumentationMode> {
 pub struct Holder {
     comp: Option<wirm::Component<'static>>,
     module: Option<Module<'static>>,
+    /// position of the module under test in the component (1 when a decoy copy of it sits in front)
+    midx: usize,
 }
 impl Holder {
     pub fn m(&mut self) -> &mut Module<'static> {
+        let k = self.midx;
         match &mut self.comp {
-            Some(c) => &mut c.modules[0],
+            Some(c) => &mut c.modules[k],
             None => self.module.as_mut().expect("module"),
         }
+    }
+}
+fn loc_mod(l: Location) -> usize {
+    match l {
+        Location::Module { .. } => 0,
+        Location::Component { mod_idx, .. } => *mod_idx as usize,
     }
 }
 fn loc_instr(l: Location) -> usize {
@@ -439,10 +448,11 @@ fn inject_one(h: &mut Holder, e: &J) -> Result<(), String> {
             // clear_instr_at(site, what): withdraw what was injected there in that mode
             let what = mode_of(e["what"].as_str().unwrap_or("")).expect("clear: plain mode");
             match api.as_str() {
-                "comp" | "comp_at" => {
+                "comp" | "comp_at" | "comp_loc" => {
+                    let midx = h.midx;
                     let comp = h.comp.as_mut().expect("harness: comp api without a component");
                     let mut it = wirm::iterator::component_iterator::ComponentIterator::new(comp, std::collections::HashMap::new());
-                    it.clear_instr_at(Location::Component { mod_idx: wirm::ir::id::ModuleID(0), func_idx: fid, instr_idx: site.max(0) as usize }, what);
+                    it.clear_instr_at(Location::Component { mod_idx: wirm::ir::id::ModuleID(midx as u32), func_idx: fid, instr_idx: site.max(0) as usize }, what);
                 }
                 "iter" | "iter_at" => {
                     let mut it = ModuleIterator::new(h.m(), &vec![]);
@@ -463,10 +473,61 @@ fn inject_one(h: &mut Holder, e: &J) -> Result<(), String> {
             }
             "comp" | "comp_at" => {
                 // the same through a ComponentIterator over the component that holds the module
+                let midx = h.midx;
                 let comp = h.comp.as_mut().expect("harness: comp api without a component");
                 let mut it = wirm::iterator::component_iterator::ComponentIterator::new(comp, std::collections::HashMap::new());
+                // walk to the module under test (a decoy copy of it may sit in front)
+                while loc_mod(it.curr_loc().0) != midx {
+                    if it.next().is_none() {
+                        panic!("harness: module {} not reached", midx);
+                    }
+                }
                 let at = api == "comp_at";
                 drive_iterator!(it, mode, at, site, code, tag);
+            }
+            "comp_loc" => {
+                // the iterator stays where it starts (the decoy module in front); the site is addressed by an
+                // explicit Location that names the module under test
+                let midx = h.midx;
+                let comp = h.comp.as_mut().expect("harness: comp api without a component");
+                let mut it = wirm::iterator::component_iterator::ComponentIterator::new(comp, std::collections::HashMap::new());
+                let loc = Location::Component { mod_idx: wirm::ir::id::ModuleID(midx as u32), func_idx: fid, instr_idx: site.max(0) as usize };
+                match mode.as_str() {
+                    "before" => {
+                        it.before_at(loc);
+                    }
+                    "after" => {
+                        it.after_at(loc);
+                    }
+                    "alternate" => {
+                        it.alternate_at(loc);
+                    }
+                    "empty_alternate" => {
+                        it.empty_alternate_at(loc);
+                    }
+                    "semantic_after" => {
+                        it.semantic_after_at(loc);
+                    }
+                    "block_entry" => {
+                        it.block_entry_at(loc);
+                    }
+                    "block_exit" => {
+                        it.block_exit_at(loc);
+                    }
+                    "block_alt" => {
+                        it.block_alt_at(loc);
+                    }
+                    "empty_block_alt" => {
+                        it.empty_block_alt_at(loc);
+                    }
+                    m => panic!("harness: mode {}", m),
+                }
+                for op in code.iter() {
+                    it.add_instr_at(loc, op.clone());
+                }
+                if let Some(t) = &tag {
+                    it.append_tag_at(t.clone(), loc);
+                }
             }
             _ => {
                 // "mod" (FunctionModifier at a location) and "mod_at" (FunctionModifier::inject_at)
@@ -577,12 +638,17 @@ pub fn run_case(case: &J, enc2: bool) -> CaseOut {
     let input = if via_replace { build_module_x(&body, arity, nlocals, true) } else { input };
     // plans that use a ComponentIterator path run on the module wrapped in a component
     let uses_comp = plan.iter().any(|e| e["api"].as_str().map(|a| a.starts_with("comp")).unwrap_or(false));
+    let decoy = plan.iter().any(|e| e["api"] == "comp_loc");
     let mut h = if uses_comp {
         let mut c = wasm_encoder::Component::new();
+        if decoy {
+            // a copy of the module in front: an injection routed to the wrong module goes there silently
+            c.section(&wasm_encoder::RawSection { id: wasm_encoder::ComponentSectionId::CoreModule as u8, data: &input });
+        }
         c.section(&wasm_encoder::RawSection { id: wasm_encoder::ComponentSectionId::CoreModule as u8, data: &input });
         let cbytes = leak(c.finish());
         match guarded(|| wirm::Component::parse(cbytes, false)) {
-            Ok(Ok(c)) => Holder { comp: Some(c), module: None },
+            Ok(Ok(c)) => Holder { comp: Some(c), module: None, midx: if decoy { 1 } else { 0 } },
             other => {
                 ev["skip"] = json!(format!("component parse: {:?}", other.err()));
                 return CaseOut { ev, bytes: None, second: None };
@@ -591,7 +657,7 @@ pub fn run_case(case: &J, enc2: bool) -> CaseOut {
     } else {
         let input = leak(input);
         match guarded(|| Module::parse(input, false)) {
-            Ok(Ok(m)) => Holder { comp: None, module: Some(m) },
+            Ok(Ok(m)) => Holder { comp: None, module: Some(m), midx: 0 },
             Ok(Err(e)) => {
                 ev["skip"] = json!(format!("parse error: {:?}", e));
                 return CaseOut { ev, bytes: None, second: None };
@@ -828,6 +894,9 @@ pub fn main(args: &[String]) {
                     e["api"] = json!("iter");
                 } else if a == "comp_at" {
                     e["api"] = json!("iter_at");
+                } else if a == "comp_loc" {
+                    let plain = mode_of(e["mode"].as_str().unwrap_or("")).is_some();
+                    e["api"] = json!(if plain { "iter_at" } else { "iter" });
                 }
             }
             let t = run_case(&twin, false);
